@@ -1393,7 +1393,7 @@ Proof. split; [reflexivity|eexists; reflexivity]. Qed.
 (* ================= every planned stage takes effect (the non-shortcut path) ================= *)
 (* what planSpl does with one stage: it wraps the current planner into the planner of the stage, except for a label
    filter flagged simple (before the first parser), which plan_ts applies to the fingerprint selection instead;
-   line_format and label_format are refused (None), so no stage of a planned pipeline is dropped *)
+   label_format is refused (None), so no stage of a planned pipeline is dropped *)
 Definition wraps (st : stage) (cur cur' : planner) : Prop :=
   match st with
   | PLineFilter op v rl => cur' = PLineFilterP op v rl cur
@@ -1401,7 +1401,8 @@ Definition wraps (st : stage) (cur cur' : planner) : Prop :=
   | PParser fn ps => cur' = PParserP fn ps cur
   | PUnwrap l => cur' = PUnwrapP l cur
   | PDrop ps => cur' = PDropP ps cur
-  | PLineFormat _ | PLabelFormat => False
+  | PLineFormat t => cur' = PLineFormatP t cur
+  | PLabelFormat => False
   end.
 Theorem plan_stage_effect st b cur cur' :
   (b = true -> is_label_filter st = true) -> plan_stage st b cur = Some cur' ->
@@ -1411,6 +1412,7 @@ Proof.
   - right. inversion E. reflexivity.
   - destruct b; inversion E; [left; auto|right; reflexivity].
   - right. inversion E. reflexivity.
+  - right. inversion E. reflexivity. (* line_format *)
   - right. inversion E. reflexivity.
   - destruct b; [specialize (Hb eq_refl); discriminate|]. right. inversion E. reflexivity.
 Qed.
